@@ -341,9 +341,12 @@ impl Debugger {
                     continue;
                 }
 
-                // skip places in function epilog
+                // skip places in function epilog: the rest of the closing line after the epilogue
+                // marker. Other lines found after it are ordinary blocks of the body (the return
+                // block of a loop is usually laid out before the loop body)
                 if let Some(eb) = epilog_begin.as_ref()
                     && place.address > eb.address
+                    && place.line_number == eb.line_number
                 {
                     match place.next() {
                         None => break,
